@@ -21,6 +21,7 @@ type Clause struct {
 type AtClause struct {
 	Vars   []string // free-variable names the closure must capture
 	Callee string   // `at call NAME: assert E` (arguments are arg0, arg1, ...)
+	Unfold bool     // `at call NAME: unfold f(args)`
 	Clause Clause
 }
 
@@ -355,6 +356,12 @@ func (P *Program) ParseContracts(mirrorDir, specDir string) error {
 					if strings.HasPrefix(r, "call ") {
 						// at call NAME: assert #label EXPR
 						r = strings.TrimSpace(strings.TrimPrefix(r, "call "))
+						if c := strings.IndexByte(r, ':'); c > 0 && strings.HasPrefix(strings.TrimSpace(r[c+1:]), "unfold ") {
+							// at call NAME: unfold f(args)   (defining equation of a rec spec function, locals in scope)
+							tgt.AtClosure = append(tgt.AtClosure, AtClause{Callee: strings.TrimSpace(r[:c]), Unfold: true, Clause: mk(strings.TrimSpace(strings.TrimPrefix(strings.TrimSpace(r[c+1:]), "unfold ")))})
+							last = &tgt.AtClosure[len(tgt.AtClosure)-1].Clause
+							continue
+						}
 						c, k := strings.IndexByte(r, ':'), strings.Index(r, "assert")
 						if c < 0 || k < c {
 							return fmt.Errorf("%s: at call NAME: assert EXPR", where)
